@@ -23,7 +23,7 @@ import textwrap
 
 from ..core import AnalysisError, norm, short
 from .. import effects, codegen
-from ..callgraph import ROLE_TABLE
+from ..callgraph import ROLE_TABLE, never_referenced
 from . import chain
 from .noninterf import RequestPath
 from .c08 import check_no_shared_store
@@ -111,27 +111,6 @@ def _request_id_stores(repo):
     return out
 
 
-def _never_referenced(repo, fi):
-    """A private function whose name occurs nowhere in the analysed tree except in its own ``def``: nothing can call
-    it (what is left of a helper after the front-end dissolved it into its callers)."""
-    name = fi.name
-    if not name.startswith('_') or (name.startswith('__') and name.endswith('__')):
-        return False
-    for m in repo.all_internal_modules():
-        for n in ast.walk(m.tree):
-            if isinstance(n, ast.Name) and n.id == name:
-                return False
-            if isinstance(n, ast.Attribute) and n.attr == name:
-                return False
-            if isinstance(n, ast.Constant) and isinstance(n.value, str) and name in n.value:
-                return False
-            if isinstance(n, ast.alias) and name in (n.name, n.asname):
-                return False
-            if isinstance(n, ast.keyword) and n.arg == name:
-                return False
-    return True
-
-
 def _fresh_request_receiver(rp, fi, name, depth=0):
     """Is local / parameter ``name`` of fi the request object this activation of the request path built from its own
     environ?  -> (ok, function that builds it, building statement).  A parameter is followed to every caller."""
@@ -173,7 +152,7 @@ def check_request_ids(rep, rp, app):
     repo = rep.repo
     dw = app.func('Application._dispatch_wsgi')
     stores = _request_id_stores(repo)
-    live = [s for s in stores if s[1] is None or not _never_referenced(repo, s[1])]
+    live = [s for s in stores if s[1] is None or not never_referenced(repo, s[1])]
     dead = [s for s in stores if s not in live]
     # which counter?
     ctr = None
